@@ -32,6 +32,19 @@ THEOREMS = [
     "Typedpy.C14.inheritance_example",
     "Typedpy.C14.keys_of_example",
     "Typedpy.reachable_ok",
+    "Typedpy.C14.abstract_not_instantiable_via",
+    "Typedpy.C14.concrete_trusted_entry_instantiates",
+    "Typedpy.c14_construct_ok_iff",
+    "Typedpy.c14_toStruct_order_irrelevant",
+    "Typedpy.c14_construct_restrict",
+    "Typedpy.C14.ctor_accepts_restricted",
+    "Typedpy.C14.sub_accepts_base_accepts",
+    "Typedpy.C14.defined_no_sealed_ancestor",
+    "Typedpy.C14.sealed_base_rejected",
+    "Typedpy.C14.ctor_example",
+    "Typedpy.C14.ignore_none_exclusion_necessary",
+    "Typedpy.C14.second_base_ctor_counterexample",
+    "Typedpy.C14.abstract_entries_example",
 ]
 RULE = ("histories of class statements: DAG hierarchies of 1..4 classes (single / two struct bases, plain mixins "
         "before or after, ImmutableStructure / FinalStructure / AbstractStructure roots), fields from the type-directed "
@@ -79,6 +92,11 @@ def judge(case, impl, model):
         if st["op"] == "abstract":
             if "ok" in r:
                 fails.append(("abstract-instantiable:AbstractStructure", "AbstractStructure() returns an instance"))
+            for kwname, via in (r.get("via") or {}).items():
+                for e, res in (via or {}).items():
+                    if e != "ctor" and "ok" in res:
+                        fails.append((f"abstract-instantiable:AbstractStructure:{e}",
+                                      f"AbstractStructure through entry point {e} with arguments {kwname} returns an instance of {res['ok']}"))
             continue
         if st.get("fault"):
             kind = st["fault"]
@@ -130,6 +148,20 @@ def judge(case, impl, model):
                 fails.append(("inherited-field-default", f"{name}.{f['field']} default differs from {f['owner']}: {f['default_diff']}"))
         if obs.get("abstract_instantiated"):
             fails.append(("abstract-instantiable:direct-subclass", f"{name}() of a direct AbstractStructure subclass did not raise the abstract TypeError"))
+        if S.is_abstract_src(st["src"]):
+            for c in r.get("ctor", []):
+                for e, res in (c.get("via") or {}).items():
+                    if "ok" in res:
+                        fails.append((f"abstract-instantiable:direct-subclass:{e}",
+                                      f"{name} lists AbstractStructure as a direct base but entry point {e} returns an instance "
+                                      f"of {res['ok']} for {json.dumps(c['kw'])[:160]}"))
+        for ca in obs.get("cast_to_abstract", []):
+            fails.append(("abstract-instantiable:cast_to",
+                          f"an instance of {name} cast_to its abstract ancestor {ca['target']}: {ca.get('got') or ca.get('err')}"))
+        for br in obs.get("base_rejects", []):
+            fails.append(("base-rejects-what-sub-accepts",
+                          f"{name}(**kw) is accepted but base {br['base']} raises {br['err']} ({br['msg']}) on the same "
+                          f"arguments restricted to its fields: {json.dumps(br['kw'])[:200]}"))
         if not obs.get("bases_unchanged", True):
             fails.append(("base-changed-by-subclassing", f"defining {name} changed one of its bases"))
     return msg, fails
